@@ -52,8 +52,15 @@ ASSUME Varint(0) = <<0>> /\ Varint(-1) = <<1>> /\ Varint(1) = <<2>> /\ Varint(-6
 ASSUME I64Of(-2) = <<255, 255, 255, 255, 255, 255, 255, 254>> /\ I64Of(1) = <<0, 0, 0, 0, 0, 0, 0, 1>>
 
 (* ---------------- tokens ---------------- *)
-Tok(k, b, p, x) == [k |-> k, b |-> b, p |-> p, x |-> x]
+\* lb / me are meaningful for length and count tokens only: lb the least legal logical value (-1 where null is legal,
+\* else 0), me the least number of bytes one counted element occupies in the frame (used by the SafeDecode rule)
+Tok(k, b, p, x) == [k |-> k, b |-> b, p |-> p, x |-> x, lb |-> 0, me |-> 0, span |-> 0]
 Fix(b, p)       == << Tok("fix", b, p, 0) >>
+NoMut           == [k |-> "", p |-> "", b |-> << >>]
+\* a length / count token; opt.mut (WireFuzz) overrides the bytes of exactly one of them, identified by (kind, path):
+\* everything that encloses it (tagged-field sizes, the frame size) is still computed from the actual bytes
+LenTok(k, b, p, x, lb, me, opt) ==
+    [k |-> k, b |-> (IF opt.mut.k = k /\ opt.mut.p = p THEN opt.mut.b ELSE b), p |-> p, x |-> x, lb |-> lb, me |-> me, span |-> 0]
 
 RECURSIVE CatB(_, _, _)
 CatB(ts, lo, hi) == IF lo > hi THEN << >> ELSE IF lo = hi THEN ts[lo].b
@@ -70,11 +77,12 @@ SizeT(ts, lo, hi) == IF lo > hi THEN 0 ELSE IF lo = hi THEN Len(ts[lo].b)
                      ELSE LET m == (lo + hi) \div 2 IN SizeT(ts, lo, m) + SizeT(ts, m + 1, hi)
 Size(ts) == SizeT(ts, 1, Len(ts))
 
-(* length / count prefixes: x is the logical length, -1 for null *)
-StrLen(n, flex, p)   == IF flex THEN Tok("compact-string-len", UVarint(n + 1), p, n) ELSE Tok("string-len", Int16(n), p, n)
-BytesLen(n, flex, p) == IF flex THEN Tok("compact-bytes-len", UVarint(n + 1), p, n) ELSE Tok("bytes-len", Int32(n), p, n)
-RecsLen(n, flex, p)  == IF flex THEN Tok("compact-record-set-size", UVarint(n + 1), p, n) ELSE Tok("record-set-size", Int32(n), p, n)
-ArrLen(n, flex, p)   == IF flex THEN Tok("compact-array-count", UVarint(n + 1), p, n) ELSE Tok("array-count", Int32(n), p, n)
+(* length / count prefixes: x is the logical length, -1 for null; nl: null is legal here *)
+LB(nl) == IF nl THEN -1 ELSE 0
+StrLen(n, flex, p, nl, opt)   == IF flex THEN LenTok("compact-string-len", UVarint(n + 1), p, n, LB(nl), 1, opt) ELSE LenTok("string-len", Int16(n), p, n, LB(nl), 1, opt)
+BytesLen(n, flex, p, nl, opt) == IF flex THEN LenTok("compact-bytes-len", UVarint(n + 1), p, n, LB(nl), 1, opt) ELSE LenTok("bytes-len", Int32(n), p, n, LB(nl), 1, opt)
+RecsLen(n, flex, p, nl, opt)  == IF flex THEN LenTok("compact-record-set-size", UVarint(n + 1), p, n, LB(nl), 1, opt) ELSE LenTok("record-set-size", Int32(n), p, n, LB(nl), 1, opt)
+ArrLen(n, flex, p, nl, me, opt) == IF flex THEN LenTok("compact-array-count", UVarint(n + 1), p, n, LB(nl), me, opt) ELSE LenTok("array-count", Int32(n), p, n, LB(nl), me, opt)
 
 (* ---------------- schema helpers (normalised schema records) ---------------- *)
 InV(lo, hi, v)   == lo <= v /\ v <= hi
@@ -84,23 +92,51 @@ Tagged(f, v)     == InV(f.tlo, f.thi, v)
 Flexible(m, v)   == InV(m.flo, m.fhi, v)
 IsPrim(t)        == t \in {"bool", "int8", "int16", "int32", "int64", "float64", "uuid", "string", "bytes", "records", "uint16", "uint32"}
 
+\* least number of bytes an element of field f (or the field itself) occupies at version v
+RECURSIVE MinElem(_, _, _), MinField(_, _, _)
+MinElem(f, v, flex) ==
+    CASE f.t \in {"bool", "int8"} -> 1 [] f.t \in {"int16", "uint16"} -> 2 [] f.t \in {"int32", "uint32"} -> 4
+      [] f.t \in {"int64", "float64"} -> 8 [] f.t = "uuid" -> 16
+      [] f.t = "string" -> IF flex THEN 1 ELSE 2
+      [] f.t \in {"bytes", "records"} -> IF flex THEN 1 ELSE 4
+      [] OTHER -> LET act == SelectSeq(f.fields, LAMBDA g: Active(g, v) /\ ~Tagged(g, v))
+                      ms  == [i \in 1..Len(act) |-> MinField(act[i], v, flex)]
+                  IN  FoldLeft(LAMBDA a, b: a + b, IF flex THEN 1 ELSE 0, ms)
+MinField(f, v, flex) == IF f.arr THEN (IF flex THEN 1 ELSE 4) ELSE MinElem(f, v, flex)
+
 (* ---------------- (ii) Encode ---------------- *)
-\* opt.inject: put unknown tagged fields into every tag section (decode-only vectors)
+\* opt = [inject |-> BOOLEAN, mut |-> NoMut or a mutation]; inject: unknown tagged fields in every tag section (decode-only vectors)
 UnknownTags(top) == IF top THEN << [tag |-> 47, ts |-> << Tok("data", << >>, "?47", 0) >>],
                                    [tag |-> 300, ts |-> << Tok("data", Rep(165, 130), "?300", 0) >>] >>
                     ELSE << [tag |-> 47, ts |-> << Tok("data", << >>, "?47", 0) >>],
                             [tag |-> 300, ts |-> << Tok("data", <<7, 8, 9>>, "?300", 0) >>] >>
 
-TagSection(entries, p) ==
+TagSection(entries, p, opt) ==
     LET es == SortSeq(entries, LAMBDA a, b: a.tag < b.tag)
-    IN  << Tok("tagged-count", UVarint(Len(es)), p, Len(es)) >> \o
+    IN  << LenTok("tagged-count", UVarint(Len(es)), p, Len(es), 0, 2, opt) >> \o
         Concat([i \in 1..Len(es) |->
                   << Tok("fix", UVarint(es[i].tag), p, 0),
-                     Tok("tagged-size", UVarint(Size(es[i].ts)), p \o "#" \o ToString(es[i].tag), Size(es[i].ts)) >> \o es[i].ts])
+                     LenTok("tagged-size", UVarint(Size(es[i].ts)), p \o "#" \o ToString(es[i].tag), Size(es[i].ts), 0, 1, opt) >> \o es[i].ts])
 
-RECURSIVE EncStruct(_, _, _, _, _, _), EncField(_, _, _, _, _, _), EncElem(_, _, _, _, _, _)
+(* A RECORDS value is a sequence of tokens supplied from outside (record encoding is property C05; the harness builds
+   well-formed batches with its independent record codec); << >> is the empty record set.  Tokens with span > 0 and an
+   encoding hold the size of the span tokens that follow (batch length, record length, message size): they are
+   recomputed here so that a mutation elsewhere leaves them correct.  Checksum tokens ("crc32c", "crc32") keep their
+   span: the harness fills them in from the layout map (TLC does not compute CRC-32). *)
+RECURSIVE ResolveBlob(_, _, _, _)
+ResolveBlob(toks, i, p, opt) ==
+    IF i > Len(toks) THEN << >>
+    ELSE LET rest == ResolveBlob(toks, i + 1, p, opt)
+             t    == toks[i]
+             q    == p \o "." \o t.p
+         IN  IF t.enc = "" THEN << [k |-> t.k, b |-> t.b, p |-> q, x |-> t.x, lb |-> 0, me |-> 0, span |-> t.span] >> \o rest
+             ELSE LET n == IF t.span > 0 THEN Size(SubSeq(rest, 1, t.span)) ELSE t.x
+                      b == IF t.span = 0 THEN t.b ELSE IF t.enc = "int32" THEN Int32(n) ELSE Varint(n)
+                  IN  << LenTok(t.k, b, q, n, t.lb, t.me, opt) >> \o rest
 
-EncElem(f, v, x, flex, p, opt) ==
+RECURSIVE EncStruct(_, _, _, _, _, _), EncField(_, _, _, _, _, _), EncElem(_, _, _, _, _, _, _)
+
+EncElem(f, v, x, flex, p, nl, opt) ==
     CASE f.t = "bool"    -> Fix(Bool(x), p)
       [] f.t = "int8"    -> Fix(Int8(x), p)
       [] f.t = "int16"   -> Fix(Int16(x), p)
@@ -109,27 +145,27 @@ EncElem(f, v, x, flex, p, opt) ==
       [] f.t = "int64"   -> Fix(Int64(x), p)
       [] f.t = "float64" -> Fix(x, p)
       [] f.t = "uuid"    -> Fix(x, p)
-      [] f.t = "string"  -> << StrLen(Len(x), flex, p), Tok("data", x, p, 0) >>
-      [] f.t = "bytes"   -> << BytesLen(Len(x), flex, p), Tok("data", x, p, 0) >>
-      [] f.t = "records" -> << RecsLen(Len(x), flex, p), Tok("records", x, p, 0) >>
+      [] f.t = "string"  -> << StrLen(Len(x), flex, p, nl, opt), Tok("data", x, p, 0) >>
+      [] f.t = "bytes"   -> << BytesLen(Len(x), flex, p, nl, opt), Tok("data", x, p, 0) >>
+      [] f.t = "records" -> LET inner == ResolveBlob(x, 1, p, opt) IN << RecsLen(Size(inner), flex, p, nl, opt) >> \o inner
       [] OTHER           -> EncStruct(f.fields, v, x, flex, p, opt)
 
-NullEnc(f, flex, p) ==
-    IF f.arr THEN << ArrLen(-1, flex, p) >>
-    ELSE CASE f.t = "string"  -> << StrLen(-1, flex, p) >>
-           [] f.t = "bytes"   -> << BytesLen(-1, flex, p) >>
-           [] f.t = "records" -> << RecsLen(-1, flex, p) >>
+NullEnc(f, v, flex, p, opt) ==
+    IF f.arr THEN << ArrLen(-1, flex, p, TRUE, MinElem(f, v, flex), opt) >>
+    ELSE CASE f.t = "string"  -> << StrLen(-1, flex, p, TRUE, opt) >>
+           [] f.t = "bytes"   -> << BytesLen(-1, flex, p, TRUE, opt) >>
+           [] f.t = "records" -> << RecsLen(-1, flex, p, TRUE, opt) >>
            [] OTHER           -> << Tok("SPEC-ERROR-null-for-non-nullable-type", << >>, p, 0) >>
 
 EncField(f, v, val, flex, path, opt) ==
     LET p == IF path = "" THEN f.name ELSE path \o "." \o f.name IN
     IF f.name \notin DOMAIN val
-    THEN IF Nullable(f, v) THEN NullEnc(f, flex, p) ELSE << Tok("SPEC-ERROR-missing-field", << >>, p, 0) >>
+    THEN IF Nullable(f, v) THEN NullEnc(f, v, flex, p, opt) ELSE << Tok("SPEC-ERROR-missing-field", << >>, p, 0) >>
     ELSE IF f.arr
          THEN LET a == val[f.name] IN
-              << ArrLen(Len(a), flex, p) >> \o
-              Concat([i \in 1..Len(a) |-> EncElem(f, v, a[i], flex, p \o "[" \o ToString(i - 1) \o "]", opt)])
-         ELSE EncElem(f, v, val[f.name], flex, p, opt)
+              << ArrLen(Len(a), flex, p, Nullable(f, v), MinElem(f, v, flex), opt) >> \o
+              Concat([i \in 1..Len(a) |-> EncElem(f, v, a[i], flex, p \o "[" \o ToString(i - 1) \o "]", FALSE, opt)])
+         ELSE EncElem(f, v, val[f.name], flex, p, Nullable(f, v), opt)
 
 EncStruct(fields, v, val, flex, path, opt) ==
     LET act    == SelectSeq(fields, LAMBDA f: Active(f, v))
@@ -137,7 +173,7 @@ EncStruct(fields, v, val, flex, path, opt) ==
         tagged == SelectSeq(act, LAMBDA f: Tagged(f, v) /\ f.name \in DOMAIN val)
         known  == [i \in 1..Len(tagged) |-> [tag |-> tagged[i].tag, ts |-> EncField(tagged[i], v, val, flex, path, opt)]]
     IN  Concat([i \in 1..Len(plain) |-> EncField(plain[i], v, val, flex, path, opt)]) \o
-        (IF flex THEN TagSection(known \o (IF opt.inject THEN UnknownTags(path = "") ELSE << >>), IF path = "" THEN "$tags" ELSE path \o ".$tags")
+        (IF flex THEN TagSection(known \o (IF opt.inject THEN UnknownTags(path = "") ELSE << >>), IF path = "" THEN "$tags" ELSE path \o ".$tags", opt)
                  ELSE << >>)
 
 EncodeBody(m, v, val, opt) == EncStruct(m.fields, v, val, Flexible(m, v), "", opt)
@@ -145,24 +181,24 @@ EncodeBody(m, v, val, opt) == EncStruct(m.fields, v, val, Flexible(m, v), "", op
 (* request header v1 (non-flexible) / v2 (flexible); the client id is a NULLABLE_STRING with an INT16 length in both *)
 ReqHeader(m, v, corr, clientNull, client, opt) ==
     Fix(Int16(m.apiKey), "$apiKey") \o Fix(Int16(v), "$apiVersion") \o Fix(Int32(corr), "$correlationId") \o
-    (IF clientNull THEN << Tok("string-len", Int16(-1), "$clientId", -1) >>
-                   ELSE << Tok("string-len", Int16(Len(client)), "$clientId", Len(client)), Tok("data", client, "$clientId", 0) >>) \o
-    (IF Flexible(m, v) THEN TagSection(IF opt.inject THEN UnknownTags(FALSE) ELSE << >>, "$header.$tags") ELSE << >>)
+    (IF clientNull THEN << LenTok("string-len", Int16(-1), "$clientId", -1, -1, 1, opt) >>
+                   ELSE << LenTok("string-len", Int16(Len(client)), "$clientId", Len(client), -1, 1, opt), Tok("data", client, "$clientId", 0) >>) \o
+    (IF Flexible(m, v) THEN TagSection(IF opt.inject THEN UnknownTags(FALSE) ELSE << >>, "$header.$tags", opt) ELSE << >>)
 
 (* response header v0 / v1 (flexible, except ApiVersions which always uses v0) *)
 ResHeader(m, v, corr, opt) ==
     Fix(Int32(corr), "$correlationId") \o
-    (IF Flexible(m, v) /\ m.apiKey # 18 THEN TagSection(IF opt.inject THEN UnknownTags(FALSE) ELSE << >>, "$header.$tags") ELSE << >>)
+    (IF Flexible(m, v) /\ m.apiKey # 18 THEN TagSection(IF opt.inject THEN UnknownTags(FALSE) ELSE << >>, "$header.$tags", opt) ELSE << >>)
 
-FrameT(ts) == << Tok("frame-size", Int32(Size(ts)), "$frame", Size(ts)) >> \o ts
+FrameT(ts, opt) == << LenTok("frame-size", Int32(Size(ts)), "$frame", Size(ts), 0, 1, opt) >> \o ts
 
-RequestFrame(m, v, corr, clientNull, client, val, opt)  == FrameT(ReqHeader(m, v, corr, clientNull, client, opt) \o EncodeBody(m, v, val, opt))
-ResponseFrame(m, v, corr, val, opt) == FrameT(ResHeader(m, v, corr, opt) \o EncodeBody(m, v, val, opt))
+RequestFrame(m, v, corr, clientNull, client, val, opt)  == FrameT(ReqHeader(m, v, corr, clientNull, client, opt) \o EncodeBody(m, v, val, opt), opt)
+ResponseFrame(m, v, corr, val, opt) == FrameT(ResHeader(m, v, corr, opt) \o EncodeBody(m, v, val, opt), opt)
 
 (* layout map of a token sequence: offset (0-based), length, kind, path, logical value of every token *)
 RECURSIVE LayoutFrom(_, _, _)
 LayoutFrom(ts, i, off) == IF i > Len(ts) THEN << >>
-                          ELSE << [off |-> off, len |-> Len(ts[i].b), k |-> ts[i].k, p |-> ts[i].p, x |-> ts[i].x] >> \o LayoutFrom(ts, i + 1, off + Len(ts[i].b))
+                          ELSE << [off |-> off, len |-> Len(ts[i].b), k |-> ts[i].k, p |-> ts[i].p, x |-> ts[i].x, lb |-> ts[i].lb, me |-> ts[i].me, span |-> ts[i].span] >> \o LayoutFrom(ts, i + 1, off + Len(ts[i].b))
 Layout(ts) == LayoutFrom(ts, 1, 0)
 
 (* ---------------- (iii) boundary-value generator ---------------- *)
